@@ -304,7 +304,7 @@ inline const std::vector<std::string>& allFeatures() {
         "lre", "message", "modes", "sort2", "comment-pi", "exslt-set", "exslt-math", "exslt-str", "genid", "lang", "sysprop", "param", "ifbool",
         "union", "preds", "valnum", "apply-imports", "text-nodes", "ns-axis", "doctype-node", "attr-nodes", "number-value", "bigfmt", "xalan-ext", "docfn", "avt-ns", "extfn", "paramuse", "gate", "num-gate", "sortlang", "num-value", "lazyvar", "manyrtf", "deeprec", "padsupp", "top-nodes", "doe", "sort-gate", "bignum-alpha",
         "num-punct", "num-exotic", "ext-evaluate", "rtf-key", "key-prefixed", "key-variant",
-        "nsalias", "withparam", "fmtnum-pat", "doc2", "unparsed-entity", "nsfix", "numconv", "keynodeset", "randexpr", "manydf", "axes-matrix", "num-groupsep", "sort-manylang", "attr-replace", "deep-rtf", "many-nodesets", "copy-ns-attr", "attr-expanded", "excl-attr"
+        "nsalias", "withparam", "fmtnum-pat", "doc2", "unparsed-entity", "nsfix", "numconv", "keynodeset", "randexpr", "manydf", "axes-matrix", "num-groupsep", "sort-manylang", "attr-replace", "deep-rtf", "many-nodesets", "copy-ns-attr", "attr-expanded", "excl-attr", "sort-avt"
     };
     return f;
 }
@@ -379,6 +379,9 @@ struct SSGen {
         if (on("num-gate")) perNode += o("num-gate", "<xsl:number level=\"any\" count=\"*[not(@zz) or $GATE = 'x']\"/>|<xsl:number level=\"single\" count=\"*[@k or $GATE = 'x']\"/>");
         if (on("lazyvar")) perNode += "<xsl:if test=\"@v &gt; 30\">" + o("lazyvar", vo("$LAZY1") + "," + vo("count($LAZY2)")) + "</xsl:if>";
         if (on("sortlang")) perNode += "<o f=\"sortlang\" n=\"{@id}\"><xsl:for-each select=\"*\"><xsl:sort select=\"substring('aAbBcC', (count(@*) + string-length(@rk)) mod 6 + 1, 1)\" lang=\"" + c.sortLang + "\"" + (c.sortCase.empty() ? std::string() : " case-order=\"" + c.sortCase + "\"") + "/><xsl:value-of select=\"concat(substring('aAbBcC', (count(@*) + string-length(@rk)) mod 6 + 1, 1), @id, ' ')\"/></xsl:for-each></o>";
+        // the order of the second sort key is an attribute value template: with P1 = 'abort' it is not a legal order, and the instruction fails while its keys are being set up
+        if (on("sort-avt")) { top += "<xsl:variable name=\"SORD\"><xsl:choose><xsl:when test=\"$P1 = 'abort'\">sideways</xsl:when><xsl:when test=\"$P1 = 'badkey'\">descending</xsl:when><xsl:otherwise>ascending</xsl:otherwise></xsl:choose></xsl:variable>";
+            perNode += "<o f=\"sort-avt\" n=\"{@id}\"><xsl:for-each select=\"*\"><xsl:sort select=\"@k\"/><xsl:sort select=\"@v\" data-type=\"number\" order=\"{$SORD}\"/><xsl:value-of select=\"@id\"/>,</xsl:for-each></o>"; }
         if (on("sort-gate")) perNode += "<o f=\"sort-gate\" n=\"{@id}\"><xsl:for-each select=\"*\"><xsl:sort select=\"@v + number(boolean(self::*[@id != $P1] or key('nosuchkey', 1)))\" data-type=\"number\"/><xsl:sort select=\"concat(@k, string(boolean(self::*[@id != $P1] or key('nosuchkey', 1))))\"/><xsl:value-of select=\"@id\"/>,</xsl:for-each></o>";
         // numbers in the thousands for the alphabetic and roman tokens
         if (on("bignum-alpha")) perNode += o("bignum-alpha", "<xsl:number value=\"count(preceding::*) * 97 + 650\" format=\"A\"/>|<xsl:number value=\"(count(preceding::*) + 1) * 676\" format=\"a\"/>|<xsl:number value=\"count(preceding::*) * 13 + 3990\" format=\"I\"/>|<xsl:number value=\"count(preceding::*) * 1000 + 999\" format=\"1\" grouping-separator=\",\" grouping-size=\"3\"/>");
@@ -519,7 +522,7 @@ struct SSGen {
             out.resources["inc1.xsl"] = "<?xml version=\"1.0\"?><xsl:stylesheet version=\"1.0\" xmlns:xsl=\"http://www.w3.org/1999/XSL/Transform\"><xsl:template name=\"incT\"><xsl:param name=\"x\"/>inc[<xsl:value-of select=\"$x\"/>]</xsl:template></xsl:stylesheet>";
         }
         if (c.stripSpace) s += c.stripNames.empty() ? std::string("<xsl:strip-space elements=\"*\"/><xsl:preserve-space elements=\"p item\"/>\n") : "<xsl:strip-space elements=\"" + c.stripNames + "\"/>\n";
-        if (c.useParam || c.on.count("param") || c.on.count("paramuse") || c.on.count("gate") || c.on.count("num-gate") || c.on.count("sort-gate")) s += "<xsl:param name=\"P1\" select=\"'dflt'\"/><xsl:param name=\"P2\" select=\"40\"/><xsl:param name=\"N\" select=\"/..\"/>\n";
+        if (c.useParam || c.on.count("param") || c.on.count("paramuse") || c.on.count("gate") || c.on.count("num-gate") || c.on.count("sort-gate") || c.on.count("sort-avt")) s += "<xsl:param name=\"P1\" select=\"'dflt'\"/><xsl:param name=\"P2\" select=\"40\"/><xsl:param name=\"N\" select=\"/..\"/>\n";
         s += "<xsl:variable name=\"G1\" select=\"count(//*)\"/><xsl:variable name=\"GP\" select=\"concat(position(), '/', last())\"/>\n";
         if (c.on.count("gate") || c.on.count("num-gate")) s += "<xsl:variable name=\"GATE\"><xsl:if test=\"$P1 = 'abort'\"><xsl:message terminate=\"yes\">gate closed</xsl:message></xsl:if><xsl:if test=\"$P1 = 'badkey'\"><xsl:value-of select=\"count(key('nosuchkey', 1))\"/></xsl:if>open</xsl:variable>\n";
         if (c.on.count("lazyvar")) s += "<xsl:variable name=\"LAZY1\" select=\"sum(//@v[. &gt; 0])\"/><xsl:variable name=\"LAZY2\" select=\"//*[@k][position() &lt; 4]\"/>\n";
